@@ -26,21 +26,11 @@ use zipora::memory::{
 };
 
 const HEADER: &str = r#"From ZV.Common Require Import Base Run.
-From ZV.C08 Require Import Model.
+From ZV.C08 Require Import Model ModelFixedCap Cases.
 Open Scope N_scope.
-(* kind (0 lockfree_pool.rs, 1 five_level_pool.rs), block size, capacity, threads, schedule,
-   observed hook notes (site, value flattened), final [head; count; bump], free list, held sets *)
-Definition case_t : Type := N * N * N * nat * list (nat * cmd) * list N * list N * option (list N) * list (list N).
-Definition eqb_oln (a b : option (list N)) : bool :=
-  match a, b with Some x, Some y => eqb_ln x y | None, None => true | _, _ => false end.
-Fixpoint eqb_lln (a b : list (list N)) : bool :=
-  match a, b with [] , [] => true | x :: a', y :: b' => eqb_ln x y && eqb_lln a' b' | _, _ => false end.
-Definition ok (c : case_t) : bool :=
-  let '(kind, bs, capacity, nthr, sc, notes, fin, free, helds) := c in
-  let cf := if kind =? 0 then cfg_lockfree bs capacity else cfg_fivelevel bs capacity in
-  let '(s, ev) := run_trace cf (init nthr cf) sc in
-  let '(f1, f2, f3) := final_obs cf s 64 in
-  eqb_ln (flat ev) notes && eqb_ln f1 fin && eqb_oln f2 free && eqb_lln f3 helds.
+(* the case types and the functions that run the models on them are in coq/C08/Cases.v *)
+Definition case_t : Type := xcase.
+Definition ok : case_t -> bool := xok.
 "#;
 
 // ------------------------------------------------------------------------------------------
@@ -81,13 +71,13 @@ fn op_parse(s: &str) -> Option<Op> {
 
 /// Model-level command that accompanies a schedule step.
 #[derive(Clone, Debug)]
-enum Cm { None, Pop, Push(u64), Scr(u64, u64) }
+enum Cm { None, Pop, Push(u64), Scr(u64, u64, u64) }
 fn cm_coq(c: &Cm) -> String {
     match c {
         Cm::None => "CNone".into(),
         Cm::Pop => "CPop".into(),
         Cm::Push(b) => format!("CPush {}", b),
-        Cm::Scr(b, v) => format!("CScribble {} {}", b, v),
+        Cm::Scr(b, v, _) => format!("CScribble {} {}", b, v),
     }
 }
 
@@ -158,6 +148,8 @@ impl Baton {
 trait Cell: Send + Sync + 'static {
     type H;
     fn alloc(&self) -> Result<(Self::H, u64), String>;
+    /// allocation on behalf of worker `tid` (pools whose request size depends on the thread)
+    fn alloc_t(&self, _tid: usize) -> Result<(Self::H, u64), String> { self.alloc() }
     fn free(&self, h: Self::H);
     /// the owner writes into its block; `v` is a link-like value
     fn scribble(&self, h: &mut Self::H, v: u64);
@@ -204,7 +196,7 @@ fn worker<C: Cell>(cell: Arc<C>, baton: Arc<Baton>, tid: usize) {
             None => OpResult::Done,
             Some((Op::Alloc, _)) => {
                 let c = cell.clone();
-                match guarded(move || c.alloc()) {
+                match guarded(move || c.alloc_t(tid)) {
                     Ok(Ok((h, id))) => { held.push(h); OpResult::Block(id) }
                     Ok(Err(e)) => OpResult::Failed(e),
                     Err(p) => OpResult::Panicked(p),
@@ -287,7 +279,7 @@ impl ScribbleMap {
 fn controlled_run<C: Cell>(
     cell: Arc<C>, progs: &[Vec<Op>], sched: &[usize], smap: &ScribbleMap, watch: &mut dyn Watch,
     inspect: &mut dyn FnMut(&RunOut) -> Vec<(Option<String>, String)>,
-    scribbler: &dyn Fn(u64, u64),
+    scribbler: &dyn Fn(u64, u64) -> u64,
 ) -> RunOut {
     let n = progs.len();
     let baton = Baton::new(n);
@@ -340,8 +332,8 @@ fn controlled_run<C: Cell>(
                         let b = out.held[t][kidx];
                         let v = smap.value(*j);
                         // performed here, on behalf of the owner, while every thread is parked
-                        scribbler(b, v);
-                        cm = Cm::Scr(b, v);
+                        let m = scribbler(b, v);
+                        cm = Cm::Scr(b, v, m);
                     }
                 }
                 Op::Malloc => {}
@@ -472,11 +464,15 @@ impl Cell for FlCell {
     fn scribble(&self, h: &mut Self::H, v: u64) { self.pool.verif_write_word(h.verif_raw(), v as u32); }
 }
 
-struct FcCell { pool: FixedCapacityMemoryPool, size: usize }
+struct FcCell { pool: FixedCapacityMemoryPool, sizes: Vec<usize> }
+impl FcCell {
+    fn size_of(&self, tid: usize) -> usize { self.sizes[tid % self.sizes.len()] }
+}
 impl Cell for FcCell {
     type H = FixedCapacityAllocation;
-    fn alloc(&self) -> Result<(Self::H, u64), String> {
-        match self.pool.allocate(self.size) {
+    fn alloc(&self) -> Result<(Self::H, u64), String> { self.alloc_t(0) }
+    fn alloc_t(&self, tid: usize) -> Result<(Self::H, u64), String> {
+        match self.pool.allocate(self.size_of(tid)) {
             Ok(a) => { let off = (a.as_ptr() as usize - self.pool.verif_base()) as u64; Ok((a, off)) }
             Err(e) => Err(e.to_string()),
         }
@@ -525,10 +521,22 @@ fn walk_free(head: u64, tail: u64, link: &dyn Fn(u64) -> Option<u64>, ever: &BTr
 struct Ctx {
     sum: Summary,
     shards: CoqShards,
-    coq_budget: usize,
+    coq_used: HashMap<&'static str, usize>,
     out: String,
     child_seq: usize,
     thorough: bool,
+}
+
+impl Ctx {
+    /// Coq cases are budgeted per cell so that every modelled cell is represented (quick: about 1500 in all).
+    fn room(&mut self, cell: &'static str, force: bool) -> bool {
+        let base = match cell { "LF" | "FL" => 300, "FC" => 280, "SP" => 280, "MP" => 200, "LZ" => 120, _ => 100 };
+        let budget = if self.thorough { base * 4 } else { base };
+        let used = self.coq_used.entry(cell).or_insert(0);
+        if !force && *used >= budget { return false; }
+        *used += 1;
+        true
+    }
 }
 
 fn progs_json(progs: &[Vec<Op>]) -> Vec<Vec<String>> { progs.iter().map(|p| p.iter().map(op_str).collect()).collect() }
@@ -561,12 +569,12 @@ fn norm_site(site: u32) -> u64 {
 }
 
 fn emit_coq(cx: &mut Ctx, kind: u32, bsize: u64, cap: u64, n: usize, out: &RunOut, fin: [u64; 3], free: &Option<Vec<u64>>, cj: &Value, force: bool) {
-    if !force && cx.shards.len() >= cx.coq_budget { return; }
     if out.eff.len() > 400 { return; }
+    if !cx.room(if kind == 0 { "LF" } else { "FL" }, force) { return; }
     let sc: Vec<String> = out.eff.iter().map(|(t, c)| format!("({}%nat, {})", t, cm_coq(c))).collect();
     let notes: Vec<u128> = out.notes.iter().flat_map(|&(_, s, v)| vec![norm_site(s) as u128, v as u128]).collect();
     let helds: Vec<String> = out.held.iter().map(|h| coq_n_list(h.iter().map(|&x| x as u128))).collect();
-    let term = format!("({}, {}, {}, {}%nat, [{}], {}, {}, {}, [{}])",
+    let term = format!("XTag ({}, {}, {}, {}%nat, [{}], {}, {}, {}, [{}])",
         kind, bsize, cap, n, sc.join("; "), coq_n_list(notes), coq_n_list(fin.iter().map(|&x| x as u128)),
         coq_opt(free.as_ref().map(|f| coq_n_list(f.iter().map(|&x| x as u128)))), helds.join("; "));
     let mut c2 = cj.clone();
@@ -631,7 +639,7 @@ fn run_lf(cx: &mut Ctx, size: usize, slots: usize, progs: &[Vec<Op>], sched: &[u
         }
         f
     };
-    let scr = move |b: u64, v: u64| unsafe { *((c3.base + b as usize) as *mut u32) = v as u32; };
+    let scr = move |b: u64, v: u64| -> u64 { unsafe { *((c3.base + b as usize) as *mut u32) = v as u32; } 0 };
     let out = controlled_run(cell.clone(), progs, sched, &smap, &mut NoWatch, &mut inspect, &scr);
     cx.sum.dist_max("max_steps_controlled", out.eff.len() as u64);
     if out.notes.iter().any(|&(_, s, v)| (s == vs::LF_POP_CAS || s == vs::LF_PUSH_CAS) && v == 0) { cx.sum.dist("runs_with_failed_cas"); }
@@ -677,7 +685,7 @@ fn run_fl(cx: &mut Ctx, size: usize, slots: usize, progs: &[Vec<Op>], sched: &[u
         }
         f
     };
-    let scr = move |b: u64, v: u64| { c3.pool.verif_write_word(b as u32, v as u32); };
+    let scr = move |b: u64, v: u64| -> u64 { c3.pool.verif_write_word(b as u32, v as u32); 0 };
     let out = controlled_run(cell.clone(), progs, sched, &smap, &mut NoWatch, &mut inspect, &scr);
     cx.sum.dist_max("max_steps_controlled", out.eff.len() as u64);
     if out.notes.iter().any(|&(_, s, v)| (s == vs::FL_POP_CAS || s == vs::FL_PUSH_CAS) && v == 0) { cx.sum.dist("runs_with_failed_cas"); }
@@ -685,60 +693,105 @@ fn run_fl(cx: &mut Ctx, size: usize, slots: usize, progs: &[Vec<Op>], sched: &[u
     if !out.aborted { emit_coq(cx, 1, bs as u64, cap as u64, progs.len(), &out, fin, &free, &cj, force); }
 }
 
-/// FixedCapacityMemoryPool under a controlled schedule (oracle only).
-fn run_fc(cx: &mut Ctx, size: usize, slots: usize, progs: &[Vec<Op>], sched: &[usize]) {
+/// Size classes of a FixedCapacityMemoryPool with max_block_size 64 and alignment 8: 8, 16, ..., 64.
+const FC_MAXB: usize = 64;
+const FC_NCLS: usize = 8;
+fn fc_class(size: usize) -> usize { (size.clamp(1, FC_MAXB) + 7) / 8 - 1 }
+
+/// FixedCapacityMemoryPool under a controlled schedule: the oracle, and every run is replayed on the
+/// model of coq/C08/ModelFixedCap.v (thread t asks for `sizes[t % len]` bytes, so several classes are in play).
+fn run_fc(cx: &mut Ctx, sizes: &[usize], clear: bool, slots: usize, progs: &[Vec<Op>], sched: &[usize], force: bool) {
     let cellname = "FixedCapacityMemoryPool/controlled";
-    let cj = case_json("FC", size, slots, progs, sched);
-    cx.sum.cell_status(cellname, "S-only");
+    let sizes: Vec<usize> = if sizes.is_empty() { vec![40] } else { sizes.iter().map(|&x| x.clamp(1, FC_MAXB)).collect() };
+    let mut cj = case_json("FC", sizes[0], slots, progs, sched);
+    cj["sizes"] = json!(sizes);
+    cj["clear"] = json!(clear);
+    cx.sum.cell_status(cellname, "M+S");
     cx.sum.eval(cellname, &cj.to_string(), progs.iter().filter(|p| !p.is_empty()).count() >= 2);
-    let maxb = 64usize;
-    let cfg = FixedCapacityPoolConfig { max_block_size: maxb, total_blocks: slots.max(1), alignment: 8, enable_stats: true, eager_allocation: true, secure_clear: false };
+    let maxb = FC_MAXB;
+    let cfg = FixedCapacityPoolConfig { max_block_size: maxb, total_blocks: slots.max(1), alignment: 8, enable_stats: true, eager_allocation: true, secure_clear: clear };
     let pool = match FixedCapacityMemoryPool::new(cfg) { Ok(p) => p, Err(e) => { cx.sum.fail(cellname, None, cj, &format!("pool creation failed: {}", e)); return; } };
-    let size = size.clamp(1, maxb);
-    let cell = Arc::new(FcCell { pool, size });
+    if pool.verif_num_classes() != FC_NCLS { cx.sum.fail(cellname, None, cj, &format!("the pool has {} size classes, 8 expected for max_block_size 64 / alignment 8", pool.verif_num_classes())); return; }
+    let cell = Arc::new(FcCell { pool, sizes: sizes.clone() });
     let smap = ScribbleMap { tail: u32::MAX as u64, base: 0, bsize: maxb as u64, slots: slots as u64 };
     let c2 = cell.clone();
     let c3 = cell.clone();
     let total = slots.max(1);
+    let mut fin: Vec<u64> = vec![];
+    let mut frees: Vec<Option<Vec<u64>>> = vec![];
+    let mut stats5: Vec<u64> = vec![];
     let mut inspect = |o: &RunOut| -> Vec<(Option<String>, String)> {
         let mut f = vec![];
         let owned: BTreeSet<u64> = o.held.iter().flatten().cloned().collect();
         let all: BTreeSet<u64> = (0..total as u64).map(|i| i * maxb as u64).collect();
         let link = |x: u64| c2.pool.verif_read_link(x as u32).map(|v| v as u64);
         let mut free_all: Vec<u64> = vec![];
+        let mut broken = false;
         for ci in 0..c2.pool.verif_num_classes() {
             let (packed, count) = c2.pool.verif_class_state(ci).unwrap_or((u32::MAX as u64, 0));
+            fin.push(packed);
+            fin.push(count as u64);
             match walk_free(packed & 0xFFFF_FFFF, u32::MAX as u64, &link, &all, &owned, total) {
                 Ok(l) => {
                     if l.len() as u64 != count as u64 { f.push((None, format!("class {} count = {} but its free list has {} blocks at quiescence", ci, count, l.len()))); }
-                    free_all.extend(l);
+                    free_all.extend(l.iter().cloned());
+                    frees.push(Some(l));
                 }
-                Err(e) => { f.push((None, format!("class {}: {}", ci, e))); return f; }
+                Err(e) => { f.push((None, format!("class {}: {}", ci, e))); frees.push(None); broken = true; }
             }
         }
-        let mut s = BTreeSet::new();
-        for b in &free_all { if !s.insert(*b) { f.push((None, format!("block {} is on two free lists", b))); } }
-        for b in &all { if !owned.contains(b) && !s.contains(b) { f.push((None, format!("block {} is neither owned nor on a free list: lost", b))); } }
+        if !broken {
+            let mut s = BTreeSet::new();
+            for b in &free_all { if !s.insert(*b) { f.push((None, format!("block {} is on two free lists", b))); } }
+            for b in &all { if !owned.contains(b) && !s.contains(b) { f.push((None, format!("block {} is neither owned nor on a free list: lost", b))); } }
+        }
         if let Some(st) = c2.pool.stats() {
             let a = st.allocations.load(Ordering::SeqCst);
             let d = st.deallocations.load(Ordering::SeqCst);
             let act = st.active_blocks.load(Ordering::SeqCst) as u64;
+            stats5 = vec![a, d, act, st.peak_blocks.load(Ordering::SeqCst) as u64, st.allocation_failures.load(Ordering::SeqCst)];
             if a != o.allocs_ok || d != o.frees || act != owned.len() as u64 {
                 f.push((None, format!("stats allocations={} deallocations={} active={} but {} allocations, {} frees, {} live", a, d, act, o.allocs_ok, o.frees, owned.len())));
             }
         }
         f
     };
-    let scr = move |b: u64, v: u64| {
+    // the owner overwrites the header words of its block: all four, or (odd slot values) only the link word, so
+    // that a stale reader can also meet an intact magic number with a wrong link
+    let bsz = maxb as u64;
+    let scr = move |b: u64, v: u64| -> u64 {
         let p = (c3.pool.verif_base() + b as usize) as *mut u32;
-        unsafe { for i in 0..4 { *p.add(i) = v as u32; } }
+        let only_link = v != u32::MAX as u64 && (v / bsz) % 2 == 1;
+        unsafe {
+            if only_link { *p.add(2) = v as u32; } else { for i in 0..4 { *p.add(i) = v as u32; } }
+            *p.add(1) as u64
+        }
     };
     let out = controlled_run(cell.clone(), progs, sched, &smap, &mut NoWatch, &mut inspect, &scr);
     cx.sum.dist_max("max_steps_controlled", out.eff.len() as u64);
-    for (cl, d) in &out.fails {
-        let cl2 = cl.clone().or_else(|| None);
-        cx.sum.fail(cellname, cl2.as_deref(), cj.clone(), d);
-    }
+    if out.notes.iter().any(|&(_, s, v)| (s == vs::FC_POP_CAS || s == vs::FC_PUSH_CAS) && v == 0) { cx.sum.dist("runs_with_failed_cas"); }
+    if out.notes.iter().any(|&(_, s, _)| s == vs::FC_SPLIT_PEEK) { cx.sum.dist("fc_runs_with_splitting"); }
+    for (cl, d) in &out.fails { cx.sum.fail(cellname, cl.as_deref(), cj.clone(), d); }
+    if out.aborted || out.eff.len() > 400 || fin.is_empty() || stats5.is_empty() { return; }
+    if !cx.room("FC", force) { return; }
+    let cls = |t: usize| fc_class(sizes[t % sizes.len()]);
+    let sc: Vec<String> = out.eff.iter().map(|(t, c)| format!("({}%nat, {})", t, match c {
+        Cm::None => "FNone".to_string(),
+        Cm::Pop => format!("FPop {}%nat", cls(*t)),
+        Cm::Push(b) => format!("FPush {} {}%nat", b, cls(*t)),
+        Cm::Scr(b, v, m) => format!("FScribble {} {} {}", b, m, v),
+    })).collect();
+    let notes: Vec<u128> = out.notes.iter().flat_map(|&(_, s, v)| vec![norm_site(s) as u128, v as u128]).collect();
+    let helds: Vec<String> = out.held.iter().map(|h| coq_n_list(h.iter().map(|&x| x as u128))).collect();
+    let frs: Vec<String> = frees.iter().map(|f| coq_opt(f.as_ref().map(|f| coq_n_list(f.iter().map(|&x| x as u128))))).collect();
+    let term = format!("XFC ({}%nat, {}, {}, {}, {}%nat, [{}], {}, {}, [{}], [{}], {})",
+        FC_NCLS, maxb, total, coq_bool(clear), progs.len(), sc.join("; "), coq_n_list(notes),
+        coq_n_list(fin.iter().map(|&x| x as u128)), frs.join("; "), helds.join("; "), coq_n_list(stats5.iter().map(|&x| x as u128)));
+    let mut c2j = cj.clone();
+    c2j["impl_final"] = json!(fin);
+    c2j["impl_free"] = json!(frees);
+    c2j["impl_stats"] = json!(stats5);
+    cx.shards.push(term, c2j);
 }
 
 /// Monitor of the secure pool's Treiber stack: keeps the abstract stack from the hook notes.
@@ -846,7 +899,7 @@ fn run_sp(cx: &mut Ctx, cache: usize, progs: &[Vec<Op>], sched: &[usize]) {
         if let Err(e) = p2.validate() { f.push((None, format!("validate() fails at quiescence: {}", e))); }
         f
     };
-    let scr = |_b: u64, _v: u64| {};
+    let scr = |_b: u64, _v: u64| -> u64 { 0 };
     let out = controlled_run(cell.clone(), progs, sched, &smap, &mut SharedWatch(w.clone()), &mut inspect, &scr);
     if std::env::var("ZV_C08_DEBUG").is_ok() {
         for (t, s, v) in &out.notes { eprintln!("note t{} site {} val {:#x}", t, s, v); }
@@ -872,7 +925,11 @@ fn run_case(cx: &mut Ctx, c: &Value, force: bool) {
     match cell.as_str() {
         "LF" => run_lf(cx, size.clamp(1, 8192), slots.clamp(1, 64), &progs, &sched, force),
         "FL" => run_fl(cx, size.clamp(1, 1024), slots.clamp(1, 64), &progs, &sched, force),
-        "FC" => run_fc(cx, size, slots.clamp(1, 64), &progs, &sched),
+        "FC" => {
+            let sizes: Vec<usize> = c["sizes"].as_array().map(|a| a.iter().filter_map(|x| x.as_u64().map(|v| v as usize)).collect()).unwrap_or_default();
+            let sizes = if sizes.is_empty() { vec![size] } else { sizes };
+            run_fc(cx, &sizes, c["clear"].as_bool().unwrap_or(false), slots.clamp(1, 64), &progs, &sched, force)
+        }
         "SP" => run_sp(cx, size.clamp(1, 8), &progs, &sched),
         _ => {}
     }
@@ -1391,7 +1448,7 @@ pub fn run(args: &Args) {
     let mut cx = Ctx {
         sum: Summary::new("C08", "controlled schedules (real threads parked at every schedule point of the zipora_verif hooks): corpus witnesses, every interleaving of two threads x one operation on a pre-filled free list, every interleaving of short pop/push pairs, then random programs of 2-3 threads (alloc / free k-th held / owner overwrites the link word / foreign malloc) under burst-biased random schedules, block size and arena size varied so that exhaustion and reuse occur; free-running stress with an ownership table for every pool; a case is non-trivial when at least two threads execute operations; distinct = distinct (cell, programs, schedule)"),
         shards: CoqShards::new(HEADER, 250),
-        coq_budget: if args.thorough { 6000 } else { 1500 },
+        coq_used: HashMap::new(),
         out: args.out.clone(), child_seq: 0, thorough: args.thorough,
     };
     if let Some(f) = &args.replay {
@@ -1440,7 +1497,7 @@ pub fn run(args: &Args) {
             sched_lf.extend(&sched);
             run_lf(&mut cx, 64, 6, &[p0.clone(), p1.clone()], &sched_lf, false);
             run_fl(&mut cx, 64, 6, &[p0.clone(), p1.clone()], &sched, false);
-            if i % (stride * 3) == 0 { run_fc(&mut cx, 40, 4, &[vec![Op::Alloc, Op::Alloc, Op::Free(0), Op::Free(0), Op::Alloc], p1.clone()], &sched[10..]); }
+            if i % (stride * 3) == 0 { run_fc(&mut cx, if i % 2 == 0 { &[40] } else { &[40, 17] }, false, 4, &[vec![Op::Alloc, Op::Alloc, Op::Free(0), Op::Free(0), Op::Alloc], p1.clone()], &sched[10..], false); }
         }
         cx.sum.dist_max("enumerated_interleavings", (all.len() / stride) as u64);
     }
@@ -1456,7 +1513,10 @@ pub fn run(args: &Args) {
         match k % 4 {
             0 => run_lf(&mut cx, size, slots, &progs, &sched, false),
             1 => run_fl(&mut cx, size.min(1000), slots, &progs, &sched, false),
-            2 => run_fc(&mut cx, size.min(64), slots, &progs, &sched),
+            2 => {
+                let sizes: Vec<usize> = match rng.below(3) { 0 => vec![size.min(64)], 1 => vec![size.min(64), *rng.pick(&[1usize, 9, 24, 64])], _ => vec![*rng.pick(&[8usize, 16]), *rng.pick(&[17usize, 33]), *rng.pick(&[50usize, 64])] };
+                run_fc(&mut cx, &sizes, rng.chance(1, 5), slots, &progs, &sched, false)
+            }
             _ => {
                 let progs: Vec<Vec<Op>> = (0..n).map(|_| gen_prog(&mut rng, plen + 3, true, slots)).collect();
                 run_sp(&mut cx, *rng.pick(&[1usize, 1, 2]), &progs, &sched);
